@@ -493,6 +493,11 @@ impl MasterSession {
             return Err(TaskError::RejectedByIin2(response.header.iin));
         }
 
+        // an outstation may ask for confirmation of any response, e.g. after a confirm-mandatory broadcast
+        if response.header.control.con {
+            self.confirm_solicited(io, destination, seq, writer).await?;
+        }
+
         Ok(Some(response))
     }
 
